@@ -78,8 +78,24 @@ def payload_for(rng, cls, k):
         raw += b'\x00' * ((-len(raw)) % 4 if k % 2 else 0)
         return list(raw), ''
     n = LENS[k % len(LENS)] if k % 4 else rng.randrange(1, 300)
-    if k % 3 == 0:
+    fam = k % 8
+    if fam == 0:
         return [rng.choice(BOUND) for _ in range(n)], ''
+    if fam == 1:
+        # data padded with NULs to a multiple of 4 (what firmware writes), incl. whole words of zeros
+        body = genpel.rbytes(rng, n)
+        return body + [0] * ((-len(body)) % 4 + rng.choice([0, 4, 8])), ''
+    if fam == 2:
+        # the payload ends (or starts) with a small big-endian number: looks like a length / pad count
+        body = genpel.rbytes(rng, n)
+        word = encode.u32(rng.choice([0, 1, 2, 3, 4, 8, max(0, n - 5), n, n + 4]))
+        return (body + word) if rng.random() < .7 else (word + body), ''
+    if fam == 3:
+        return [rng.choice([0x00, 0xFF])] * n, ''
+    if fam == 4:
+        # a run of identical 16-byte lines (dump lines that look alike) with a short tail
+        line = genpel.rbytes(rng, 16)
+        return line * rng.choice([2, 3, 17]) + line[: rng.randrange(0, 16)], ''
     return genpel.rbytes(rng, n), ''
 
 
